@@ -13,6 +13,7 @@ import (
 	"encoding/json"
 	"fmt"
 	"math/rand"
+	"os"
 	"sort"
 	"time"
 
@@ -24,17 +25,23 @@ import (
 	govtypes "github.com/cosmos/cosmos-sdk/x/gov/types"
 	stakingtypes "github.com/cosmos/cosmos-sdk/x/staking/types"
 	"github.com/ethereum/go-ethereum/common"
+	ethtypes "github.com/ethereum/go-ethereum/core/types"
+	"github.com/ethereum/go-ethereum/core/vm"
+	"github.com/evmos/evmos/v16/x/evm/statedb"
+	"math/big"
+
+	delegationprecompile "github.com/ExocoreNetwork/exocore/precompiles/delegation"
 
 	exocoreapp "github.com/ExocoreNetwork/exocore/app"
 	keytypes "github.com/ExocoreNetwork/exocore/types/keys"
-	avstypes "github.com/ExocoreNetwork/exocore/x/avs/types"
 	assetskeeper "github.com/ExocoreNetwork/exocore/x/assets/keeper"
 	assetstypes "github.com/ExocoreNetwork/exocore/x/assets/types"
+	avstypes "github.com/ExocoreNetwork/exocore/x/avs/types"
 	delegationtypes "github.com/ExocoreNetwork/exocore/x/delegation/types"
-	oracletypes "github.com/ExocoreNetwork/exocore/x/oracle/types"
 	dogfoodtypes "github.com/ExocoreNetwork/exocore/x/dogfood/types"
 	operatorkeeper "github.com/ExocoreNetwork/exocore/x/operator/keeper"
 	operatortypes "github.com/ExocoreNetwork/exocore/x/operator/types"
+	oracletypes "github.com/ExocoreNetwork/exocore/x/oracle/types"
 )
 
 func init() {
@@ -52,26 +59,26 @@ const (
 )
 
 type c07Obs struct {
-	Opted  []int64      `json:"opted"`
-	KOp    [][2]int64   `json:"k_op"`
-	KCh    [][2]int64   `json:"k_ch"`
-	Rev    [][2]int64   `json:"rev"`
-	Prev   [][2]int64   `json:"prev"`
-	Rm     []int64      `json:"rm"`
-	Vs     []int64      `json:"vs"`
-	QOpt   []c07QEntry  `json:"q_opt"`
-	QPrune []c07QEntry  `json:"q_prune"`
-	QUnd   []c07QEntry  `json:"q_und"`
-	Fin    [][2]int64   `json:"fin"`
-	Mat    [][2]int64   `json:"mat"`
-	POpt   []int64      `json:"p_opt"`
-	PPrune []int64      `json:"p_prune"`
-	PUnd   []int64      `json:"p_und"`
-	EpEnd  bool         `json:"ep_end"`
-	Cur    int64        `json:"cur"`
-	Unb    int64        `json:"unb"`
-	Holds  [][2]int64   `json:"holds"`
-	Probe  []c07ProbeKV `json:"probe"`
+	Opted   []int64      `json:"opted"`
+	KOp     [][2]int64   `json:"k_op"`
+	KCh     [][2]int64   `json:"k_ch"`
+	Rev     [][2]int64   `json:"rev"`
+	Prev    [][2]int64   `json:"prev"`
+	Rm      []int64      `json:"rm"`
+	Vs      []int64      `json:"vs"`
+	QOpt    []c07QEntry  `json:"q_opt"`
+	QPrune  []c07QEntry  `json:"q_prune"`
+	QUnd    []c07QEntry  `json:"q_und"`
+	Fin     [][2]int64   `json:"fin"`
+	Mat     [][2]int64   `json:"mat"`
+	POpt    []int64      `json:"p_opt"`
+	PPrune  []int64      `json:"p_prune"`
+	PUnd    []int64      `json:"p_und"`
+	EpEnd   bool         `json:"ep_end"`
+	Cur     int64        `json:"cur"`
+	Unb     int64        `json:"unb"`
+	Holds   [][2]int64   `json:"holds"`
+	Probe   []c07ProbeKV `json:"probe"`
 	Jailed  []int64      `json:"jailed"`
 	Info    []int64      `json:"info"`
 	JProbe  []c07ProbeKV `json:"jprobe"`
@@ -124,22 +131,23 @@ type c07Case struct {
 // ---- driver ---------------------------------------------------------------------------------
 
 type c07Drv struct {
-	env     *Env
-	app     *exocoreapp.ExocoreApp
-	avsAddr string
-	chainID string
-	keys    []keytypes.WrappedConsKey
-	keyIdx  map[string]int64 // consAddr bytes -> key id
-	pubIdx  map[string]int64 // ed25519 pubkey bytes -> key id
-	opIdx   map[string]int64 // acc addr bytes -> operator id
-	recIdx  map[string]int64 // record key -> record id
-	nextRec int64
-	nonce   uint64
+	env       *Env
+	app       *exocoreapp.ExocoreApp
+	avsAddr   string
+	chainID   string
+	keys      []keytypes.WrappedConsKey
+	keyIdx    map[string]int64 // consAddr bytes -> key id
+	pubIdx    map[string]int64 // ed25519 pubkey bytes -> key id
+	opIdx     map[string]int64 // acc addr bytes -> operator id
+	recIdx    map[string]int64 // record key -> record id
+	nextRec   int64
+	nonce     uint64
 	msgSeq    int64
+	undSeq    int64
 	slashSeq  int64
 	slashUsed map[[2]int64]bool
-	msg     *operatorkeeper.MsgServerImpl
-	w       *CaseWriter
+	msg       *operatorkeeper.MsgServerImpl
+	w         *CaseWriter
 }
 
 func c07NewDrv(w *CaseWriter) *c07Drv {
@@ -233,7 +241,9 @@ func c07Amount(n int64) sdkmath.Int {
 }
 
 // epochID is the epoch identifier the dogfood module currently uses.
-func (d *c07Drv) epochID() string { return d.app.StakingKeeper.GetDogfoodParams(d.ctx()).EpochIdentifier }
+func (d *c07Drv) epochID() string {
+	return d.app.StakingKeeper.GetDogfoodParams(d.ctx()).EpochIdentifier
+}
 
 // newKey adds one more deterministic consensus key to the pool and returns its id.
 func (d *c07Drv) newKey() int64 {
@@ -511,6 +521,9 @@ func (d *c07Drv) tx(f func(ctx sdk.Context) error) (res string) {
 	defer func() {
 		if r := recover(); r != nil {
 			res = "panic"
+			if os.Getenv("C07_DEBUG") != "" {
+				fmt.Fprintf(os.Stderr, "c07 tx panic: %v\n", r)
+			}
 		}
 	}()
 	if err := f(cc); err != nil {
@@ -540,6 +553,59 @@ func (d *c07Drv) operatorMsg(op *c07Op, msg sdk.Msg, direct func(ctx sdk.Context
 	op.Via = "msgserver"
 	d.w.Count("via:msgserver")
 	return d.tx(direct)
+}
+
+// runDelegationPrecompile calls a method of the delegation precompile instance held by the application's EVM keeper,
+// with the configured gateway (assets params ExocoreLzAppAddress) as the calling contract.
+func (d *c07Drv) runDelegationPrecompile(ctx sdk.Context, txHash common.Hash, method string, args ...interface{}) error {
+	fresh, err := delegationprecompile.NewPrecompile(d.app.AssetsKeeper, d.app.DelegationKeeper, d.app.AuthzKeeper)
+	if err != nil {
+		panic(err)
+	}
+	addr := fresh.Address()
+	pc, ok := d.app.EvmKeeper.Precompiles(addr)[addr]
+	if !ok {
+		panic("delegation precompile not registered")
+	}
+	input, err := fresh.ABI.Pack(method, args...)
+	if err != nil {
+		panic("pack " + method + ": " + err.Error())
+	}
+	p, _ := d.app.AssetsKeeper.GetParams(ctx)
+	gateway := common.HexToAddress(p.ExocoreLzAppAddress)
+	ctx = ctx.WithGasMeter(sdk.NewInfiniteGasMeter()).WithValue(delegationprecompile.CtxKeyTxHash, txHash)
+	sdb := statedb.New(ctx, d.app.EvmKeeper, statedb.NewEmptyTxConfig(txHash))
+	cfg, err := d.app.EvmKeeper.EVMConfig(ctx, d.proposer(ctx), d.app.EvmKeeper.ChainID())
+	if err != nil {
+		panic("evm config: " + err.Error())
+	}
+	msg := ethtypes.NewMessage(d.env.AccAddrs[0], &addr, 0, big.NewInt(0), 100_000_000, big.NewInt(0), big.NewInt(0), big.NewInt(0), input, nil, true)
+	evm := d.app.EvmKeeper.NewEVM(ctx, msg, cfg, nil, sdb)
+	contract := vm.NewPrecompile(vm.AccountRef(gateway), pc, big.NewInt(0), uint64(100_000_000))
+	contract.Input = input
+	bz, err := pc.Run(evm, contract, false)
+	if err != nil {
+		return err
+	}
+	out, err := fresh.ABI.Unpack(method, bz)
+	if err != nil || len(out) == 0 {
+		return fmt.Errorf("precompile output")
+	}
+	if okb, isb := out[0].(bool); !isb || !okb {
+		return fmt.Errorf("precompile returned false")
+	}
+	return nil
+}
+
+// proposer returns the consensus address of a member of the stored validator set (the EVM resolves the coinbase from the
+// block proposer; the header of this harness names a fixed genesis key that may have been replaced long ago), nil if none.
+func (d *c07Drv) proposer(ctx sdk.Context) sdk.ConsAddress {
+	for _, v := range d.app.StakingKeeper.GetAllExocoreValidators(ctx) {
+		if pk, err := v.ConsPubKey(); err == nil {
+			return sdk.GetConsAddress(pk)
+		}
+	}
+	return nil
 }
 
 func (d *c07Drv) exec(op *c07Op) string {
@@ -572,7 +638,7 @@ func (d *c07Drv) exec(op *c07Op) string {
 			_, err := d.msg.OptOutOfAVS(sdk.WrapSDKContext(ctx), m)
 			return err
 		})
-	case "undelegate":
+	case "undelegate", "undelegatepc":
 		d.nonce++
 		opAddr := d.env.Operators[op.O]
 		txHash := common.BytesToHash(seedBytes("c07tx", int(d.nonce)))
@@ -580,6 +646,15 @@ func (d *c07Drv) exec(op *c07Op) string {
 		op.R = d.nextRec
 		d.recIdx[string(recKey)] = d.nextRec
 		d.nextRec++
+		if op.Kind == "undelegatepc" {
+			// the production path: the gateway contract calls the delegation precompile the application REGISTERED
+			// with the EVM keeper (not a freshly built instance)
+			return d.tx(func(ctx sdk.Context) error {
+				return d.runDelegationPrecompile(ctx, txHash, "undelegate", uint32(d.env.LzID), d.nonce,
+					common.HexToAddress(d.env.AssetAddr).Bytes(), common.BytesToAddress(opAddr.Bytes()).Bytes(),
+					[]byte(opAddr.String()), c07Amount(op.N).BigInt())
+			})
+		}
 		return d.tx(func(ctx sdk.Context) error {
 			return d.app.DelegationKeeper.UndelegateFrom(ctx, &delegationtypes.DelegationOrUndelegationParams{
 				ClientChainID: d.env.LzID, AssetsAddress: common.HexToAddress(d.env.AssetAddr).Bytes(),
@@ -736,6 +811,13 @@ func (b *c07Builder) noteRecs(o c07Obs) {
 }
 
 func (b *c07Builder) do(op c07Op) string {
+	if op.Kind == "undelegate" {
+		// every second undelegation arrives the way it does in production: gateway -> delegation precompile
+		b.d.undSeq++
+		if b.d.undSeq%2 == 0 && b.d.proposer(b.d.ctx()) != nil {
+			op.Kind = "undelegatepc"
+		}
+	}
 	if op.Kind == "optinkey" || op.Kind == "setkey" || op.Kind == "setkeyraw" || op.Kind == "jail" || op.Kind == "unjail" || op.Kind == "slash" {
 		b.keys[op.K] = true
 		b.used[op.K] = true
@@ -759,7 +841,7 @@ func (b *c07Builder) do(op c07Op) string {
 	}
 	res := b.d.exec(&op)
 	obs := b.d.observe(b.used)
-	if op.Kind == "undelegate" {
+	if op.Kind == "undelegate" || op.Kind == "undelegatepc" {
 		b.recs[op.R] = true
 	}
 	b.push(op, res, obs)
@@ -879,7 +961,7 @@ func (op c07Op) coq() string {
 		return cApp("SetKeyK", cZ(op.O), cZ(op.K))
 	case "optout":
 		return cApp("OptOut", cZ(op.O))
-	case "undelegate":
+	case "undelegate", "undelegatepc":
 		return cApp("Undelegate", cZ(op.O), cZ(op.R))
 	case "setunb", "setmaxvals", "topup":
 		return cApp("SetUnb", cZ(op.N))
@@ -1222,6 +1304,38 @@ func (d *c07Drv) directedJailedReplaced(suite string, rng *rand.Rand) {
 	b.finish(suite)
 }
 
+// D10: the same undelegation from a validating operator through the keeper and through the gateway precompile the
+// application registered: both must be queued for cur+unb and held.
+func (d *c07Drv) directedPrecompileUndelegation(suite string, rng *rand.Rand) {
+	b := d.begin("dir-precompile-undelegation")
+	b.do(c07Op{Kind: "setunb", N: 2})
+	for _, p := range b.last.KOp {
+		if c07In(p[0], b.last.Opted) && c07In(p[1], b.last.Vs) {
+			o := p[0]
+			b.push2(c07Op{Kind: "undelegate", O: o})
+			b.push2(c07Op{Kind: "undelegatepc", O: o})
+			b.do(c07Op{Kind: "optout", O: o})
+			b.push2(c07Op{Kind: "undelegatepc", O: o}) // matures with the opt-out
+			break
+		}
+	}
+	for i := 0; i < 4; i++ {
+		b.block(61)
+	}
+	b.finish(suite)
+}
+
+// push2 executes an op exactly as given (no alternation between the keeper and the precompile path).
+func (b *c07Builder) push2(op c07Op) {
+	if op.Kind == "undelegatepc" && b.d.proposer(b.d.ctx()) == nil {
+		op.Kind = "undelegate"
+	}
+	res := b.d.exec(&op)
+	obs := b.d.observe(b.used)
+	b.recs[op.R] = true
+	b.push(op, res, obs)
+}
+
 func (b *c07Builder) nothingScheduled() bool {
 	o := b.last
 	return len(o.QOpt) == 0 && len(o.QPrune) == 0 && len(o.QUnd) == 0 && len(o.POpt) == 0 && len(o.PPrune) == 0 && len(o.PUnd) == 0
@@ -1231,8 +1345,8 @@ func (b *c07Builder) nothingScheduled() bool {
 
 type c07Mix struct {
 	optinkey, optin, setkey, setkeyraw, optout, undelegate, setunb, jail, unjail, slash, clock, combo int
-	blockEvery                                          int
-	pTick, pGap                                         int // per cent
+	blockEvery                                                                                        int
+	pTick, pGap                                                                                       int // per cent
 }
 
 func (d *c07Drv) random(suite string, rng *rand.Rand, mix c07Mix, steps int) {
@@ -1367,6 +1481,7 @@ func c07Run(a *Args, suite string) error {
 	d.directed(suite, rng)
 	d.directedLowSelf(suite, rng)
 	d.directedJailedReplaced(suite, rng)
+	d.directedPrecompileUndelegation(suite, rng)
 	mix := c07Mix{optinkey: 22, optin: 5, setkey: 24, setkeyraw: 10, optout: 18, undelegate: 16, setunb: 4, jail: 7, unjail: 9, slash: 8, clock: 2, combo: 5, blockEvery: 4, pTick: 40, pGap: 6}
 	if suite == "c16" {
 		mix = c07Mix{optinkey: 14, optin: 3, setkey: 13, setkeyraw: 4, optout: 14, undelegate: 40, setunb: 10, jail: 3, unjail: 4, slash: 3, clock: 4, combo: 7, blockEvery: 4, pTick: 40, pGap: 10}
